@@ -361,7 +361,7 @@ fn _hash(kmer: &[u8]) -> HashIntoType {
     rev |= twobit_comp(kmer[ksize - 1]);
 
     let mut i = 1;
-    let mut j: isize = (ksize - 2) as isize;
+    let mut j: isize = ksize as isize - 2;
 
     while i < ksize {
         hash <<= 2;
